@@ -685,6 +685,60 @@ class StrippableText(TRope):
         return r
 
 
+# ------------------------------------------------------------------ csv (row layer only; the text layer is the C _csv module)
+
+class CsvOut:
+    """stands for a text file that receives CSV: records header and rows instead of rendering text"""
+    def __init__(self):
+        self.header = None
+        self.rows = []
+
+    def write(self, s):
+        raise Unsupported('raw text written to a CSV stub file')
+
+
+class CsvIn:
+    def __init__(self, fieldnames, rows):
+        self.fieldnames = list(fieldnames)
+        self.rows = [dict(r) for r in rows]
+
+
+class _DictWriter:
+    def __init__(self, f, fieldnames, restval='', extrasaction='raise', *a, **kw):
+        self.f = f
+        self.fieldnames = list(fieldnames)
+        self.restval = restval
+        self.extrasaction = extrasaction
+
+    def writeheader(self):
+        self.f.header = list(self.fieldnames)
+
+    def writerow(self, d):
+        if self.extrasaction == 'raise':
+            wrong = [k for k in d if k not in self.fieldnames]
+            if wrong:
+                raise ValueError('dict contains fields not in fieldnames: %r' % wrong)
+        self.f.rows.append({k: d.get(k, self.restval) for k in self.fieldnames})
+
+    def writerows(self, rows):
+        for d in rows:
+            self.writerow(d)
+
+
+class _DictReader:
+    def __init__(self, f, *a, **kw):
+        self.f = f
+        self.fieldnames = f.fieldnames
+
+    def __iter__(self):
+        return iter([dict(r) for r in self.f.rows])
+
+
+class CsvStub:
+    DictWriter = _DictWriter
+    DictReader = _DictReader
+
+
 SHADOWS = {
     'len': sh_len,
     'str': StrLike,
